@@ -123,6 +123,13 @@ def c05_key(aid, events, outs):
 C05_ASSUME = ["the emitted guard text is read back through the four statement forms writeTypeConversion emits today (`src > limits<T>::max()`, `src < limits<T>::lowest()`, `src < 0`, throw)",
               "C++ integer comparison/`numeric_limits` semantics transcribed as 64-bit arithmetic in the harness; static_cast of an in-range value preserves it"]
 
+def c06_key(aid, events, outs):
+    o = {x["key"]: x["val"] for x in outs}
+    if o.get("container") in ("1", "2") and aid in ("compatible-change-accepted", "partial-change-accepted"):
+        return "c06:change-to-record-used-as-map-value-or-array-element-rejected"
+    return "c06:%s:%s" % (aid, o.get("edit", "?"))
+
+
 def c07_key(aid, events, outs):
     m = {e["name"]: e["value"] for e in events}
     if any(k.endswith("from-end") for k in m):
@@ -284,6 +291,14 @@ PARTS = {
                                assumptions=["os.ReadFile/WriteFile modelled by the virtual file system in env_intrinsics.go"])),
     ],
     "C06": [
+        (G, "gosym_part", dict(name="c06_env_edit_classes", entry="internal/zzverif.C06Env", key_fn=c06_key,
+                               required_sites=("verdict-without-panic", "breaking-change-rejected", "partial-change-accepted", "partial-change-warned",
+                                               "compatible-change-accepted", "compatible-change-silent"),
+                               assumptions=["edit classes and their verdict class transcribed from docs/cpp/evolution.md (harness zz_c06env.go: 9 compatible, 6 partially compatible, 12 breaking)",
+                                            "base model: record, two generic records, enum with base, protocol with plain/generic/stream/enum/optional/union/fixed-vector/map steps; "
+                                            "optionally the record also occurs as map value or array element"],
+                               desc="real dsl.Validate on old and new = edit(old), then real ValidateEvolution: verdict class (silent / warning / error) equals the documented class for "
+                                    "27 edit kinds, alone and combined with a compatible change of the record they refer to; number pair and vector lengths symbolic")),
         (G, "gosym_part", dict(name="c06_reflexive", entry="internal/zzverif.C06Reflexive", args_quick=(1, 1), args_thorough=(2, 1),
                                required_sites=("reflexive", "total"), assumptions=C06_ASSUME,
                                desc="compareTypes(clone(T), T) reports no change and does not panic, T symbolic (depth, full-primitive leaves)")),
